@@ -211,12 +211,20 @@ func c12Exec(co *caseOut, kind string, in c12Input) (c12Obs, bool) {
 	return obs, true
 }
 
+var c12SweepCount int
+
 func c12Run(co *caseOut, kind, tag string, in c12Input) {
 	obs, ok := c12Exec(co, kind, in)
 	if !ok {
 		return
 	}
 	script := in.script()
+	if len(in.Scripts) == 0 && kind != "gas" {
+		c12SweepCount++
+		if c12SweepCount%12 == 0 { // the gas limit at its boundary values (c12gas.go)
+			c12GasSweep(co, script)
+		}
+	}
 	// VM reuse: the same script after Reset() on a VM that has just executed other scripts (see c13reuse.go) must show
 	// the same outcome and the same item-counter trace
 	if len(in.Scripts) > 0 {
@@ -839,6 +847,11 @@ func runC12(args []string) error {
 			base, limit = 300000, int64(30*(20+r.intn(3000)))
 		}
 		c12Run(co, "deep", "gen", c12Input{Ops: c12HexOps(ops), Base: base, Limit: limit})
+	}
+	// gas charged by a SYSCALL handler at the boundary of the limit; a few fixed scripts under limit 0
+	c12SyscallGas(co)
+	for _, b := range [][]byte{{}, {byte(opcode.RET)}, {byte(opcode.PUSH1)}, {byte(opcode.NOP), byte(opcode.NOP)}, {byte(opcode.JMP), 0}, {byte(opcode.PUSH1), byte(opcode.PUSH1), byte(opcode.ADD)}} {
+		c12GasSweep(co, b)
 	}
 	// several scripts loaded on top of each other, exceptions across script boundaries
 	for _, in := range c12MultiBoundary() {
